@@ -1,14 +1,22 @@
-// C47 — relay resource limits.  The admission conditions and accept statements of
-// Behaviour::on_connection_handler_event are extracted verbatim each run (the
-// events themselves carry live streams, so the method cannot be called); the
-// maps are the dependency shim.  Invariant `inv`:
+// C47 — relay resource limits.  The admission conditions, the destination lookup and
+// the accept statements of Behaviour::on_connection_handler_event are extracted
+// verbatim each run (the events themselves carry live streams, so the method cannot
+// be called) and become methods of `AdmitEnv`, whose fields are exactly the three
+// pieces of Behaviour state those texts use.  Invariant `inv` (from the statement):
 //   every peer's ACTIVE reservations <= max_reservations_per_peer, total <= max_reservations,
 //   circuits involving any one peer  <= max_circuits_per_peer,     total <= max_circuits.
 // Obligation (inductive step): inv(before) and the request is admitted  =>  inv(after),
 // one obligation per limit so that a report names the limit that is not kept.
+//
+// `connections` is a ScanMap (dependency shim, assumed finite-map contract, eager
+// iterators, no symbolic indexing); `circuits` is the REAL CircuitsTracker (its HashMap is the
+// dependency shim of the shim tree), with cells placed directly by the harness.
+use crate::verif_shims::ScanMap;
+type ConnMap = ScanMap<ConnectionId, Reservation, 3>;
+type PeerMap = ScanMap<PeerId, ConnMap, 3>;
 
 pub(crate) struct AdmitEnv {
-    pub(crate) connections: HashMap<PeerId, HashMap<ConnectionId, Reservation>>,
+    pub(crate) connections: PeerMap,
     pub(crate) circuits: CircuitsTracker,
     pub(crate) config: Config,
 }
@@ -22,66 +30,38 @@ impl Req {
 
 include!(concat!(env!("LIBP2P_VERIF_GEN"), "/C47/admission_fragment.rs"));
 
+const PEERS: u8 = 3;
+const CONNS: u8 = 3;
+
 fn peer(b: u8) -> PeerId {
     PeerId::from_multihash(libp2p_core::multihash::Multihash::<64>::wrap(0, &[b]).unwrap()).unwrap()
 }
-fn any_peer() -> PeerId {
-    let b: u8 = kani::any();
-    kani::assume(b < 3);
-    peer(b)
-}
-fn any_conn() -> ConnectionId {
-    let c: u8 = kani::any();
-    kani::assume(c < 4);
+fn cid(c: u8) -> ConnectionId {
     ConnectionId::new_unchecked(c as usize)
 }
+fn any_peer_ix() -> u8 {
+    let b: u8 = kani::any();
+    kani::assume(b < PEERS);
+    b
+}
+fn any_conn_ix() -> u8 {
+    let c: u8 = kani::any();
+    kani::assume(c < CONNS);
+    c
+}
 
-fn config(max_res: usize, max_res_pp: usize, max_c: usize, max_c_pp: usize) -> Config {
+/// every limit is an arbitrary usize
+fn any_config() -> Config {
     Config {
-        max_reservations: max_res,
-        max_reservations_per_peer: max_res_pp,
+        max_reservations: kani::any(),
+        max_reservations_per_peer: kani::any(),
         reservation_duration: Duration::from_secs(1),
         reservation_rate_limiters: Vec::new(),
-        max_circuits: max_c,
-        max_circuits_per_peer: max_c_pp,
+        max_circuits: kani::any(),
+        max_circuits_per_peer: kani::any(),
         max_circuit_duration: Duration::from_secs(1),
         max_circuit_bytes: 1,
         circuit_src_rate_limiters: Vec::new(),
-    }
-}
-
-fn small() -> usize {
-    let x: u8 = kani::any();
-    kani::assume(x <= 3);
-    x as usize
-}
-
-fn active_of(e: &AdmitEnv, p: &PeerId) -> usize {
-    e.connections.get(p).map_or(0, |cs| cs.values().filter(|s| s.is_active()).count())
-}
-fn total_active(e: &AdmitEnv) -> usize {
-    active_of(e, &peer(0)) + active_of(e, &peer(1)) + active_of(e, &peer(2))
-}
-fn circuits_of(e: &AdmitEnv, p: PeerId) -> usize {
-    e.circuits.circuits.values().filter(|c| c.src_peer_id == p || c.dst_peer_id == p).count()
-}
-
-fn inv_reservations(e: &AdmitEnv) -> bool {
-    let m = e.config.max_reservations_per_peer;
-    active_of(e, &peer(0)) <= m && active_of(e, &peer(1)) <= m && active_of(e, &peer(2)) <= m
-        && total_active(e) <= e.config.max_reservations
-}
-fn inv_circuits(e: &AdmitEnv) -> bool {
-    let m = e.config.max_circuits_per_peer;
-    circuits_of(e, peer(0)) <= m && circuits_of(e, peer(1)) <= m && circuits_of(e, peer(2)) <= m
-        && e.circuits.len() <= e.config.max_circuits
-}
-
-fn empty_env() -> AdmitEnv {
-    AdmitEnv {
-        connections: HashMap::new(),
-        circuits: CircuitsTracker::default(),
-        config: config(small(), small(), small(), small()),
     }
 }
 
@@ -89,47 +69,163 @@ fn any_status() -> Reservation {
     if kani::any() { Reservation::Active } else { Reservation::None }
 }
 
-/// reservation side (the reservation admission text does not read `circuits`): a fixed
-/// key layout with symbolic statuses — peer 0 on connections 0 and 1, peer 1 on
-/// connection 0, peer 2 unknown — so peer 0 holds 0..2 active reservations, peer 1
-/// 0..1; the requester and its connection are arbitrary (3 peers x 4 connections)
-fn any_reservation_env() -> AdmitEnv {
-    let mut e = empty_env();
-    e.connections.entry(peer(0)).or_default().insert(ConnectionId::new_unchecked(0), any_status());
-    e.connections.entry(peer(0)).or_default().insert(ConnectionId::new_unchecked(1), any_status());
-    e.connections.entry(peer(1)).or_default().insert(ConnectionId::new_unchecked(0), any_status());
-    e
+/// an arbitrary map connection -> status with at most `nc` entries (keys distinct, any slots)
+fn any_conn_map(nc: usize) -> ConnMap {
+    let k: [u8; 3] = [any_conn_ix(), any_conn_ix(), any_conn_ix()];
+    kani::assume(k[0] != k[1] && k[0] != k[2] && k[1] != k[2]);
+    let c0 = if nc > 0 && kani::any() { Some((cid(k[0]), any_status())) } else { None };
+    let c1 = if nc > 1 && kani::any() { Some((cid(k[1]), any_status())) } else { None };
+    let c2 = if nc > 2 && kani::any() { Some((cid(k[2]), any_status())) } else { None };
+    ConnMap::from_cells([c0, c1, c2])
 }
 
-/// circuit side: up to 2 circuits with arbitrary endpoints (3 peers x 4 connection ids);
-/// `connections` (read only by the destination lookup) holds one entry: peer 1 on
-/// connection 0 with a symbolic reservation status
-fn any_circuit_env() -> AdmitEnv {
-    let mut e = empty_env();
-    e.connections.entry(peer(1)).or_default().insert(ConnectionId::new_unchecked(0), any_status());
-    let mut j = 0;
-    while j < 2 {
-        if kani::any() {
-            e.circuits.insert(Circuit {
-                status: if kani::any() { CircuitStatus::Accepting } else { CircuitStatus::Accepted },
-                src_peer_id: any_peer(),
-                src_connection_id: any_conn(),
-                dst_peer_id: any_peer(),
-                dst_connection_id: any_conn(),
-            });
+/// an arbitrary map peer -> (connection -> status) with at most `np` peers x `nc` connections
+fn any_peer_map(np: usize, nc: usize) -> PeerMap {
+    let k: [u8; 3] = [any_peer_ix(), any_peer_ix(), any_peer_ix()];
+    kani::assume(k[0] != k[1] && k[0] != k[2] && k[1] != k[2]);
+    let c0 = if np > 0 && kani::any() { Some((peer(k[0]), any_conn_map(nc))) } else { None };
+    let c1 = if np > 1 && kani::any() { Some((peer(k[1]), any_conn_map(nc))) } else { None };
+    let c2 = if np > 2 && kani::any() { Some((peer(k[2]), any_conn_map(nc))) } else { None };
+    PeerMap::from_cells([c0, c1, c2])
+}
+
+// ---- the invariant, counted by the harness independently of the admission text ----
+
+fn active_of(e: &AdmitEnv, p: &PeerId) -> usize {
+    let mut n = 0;
+    let mut i = 0;
+    while i < 3 {
+        if let Some((k, cs)) = &e.connections.slots[i] {
+            if k == p {
+                let mut j = 0;
+                while j < 3 {
+                    if let Some((_, s)) = &cs.slots[j] {
+                        if s.is_active() {
+                            n += 1;
+                        }
+                    }
+                    j += 1;
+                }
+            }
         }
-        j += 1;
+        i += 1;
     }
-    e
+    n
+}
+fn total_active(e: &AdmitEnv) -> usize {
+    let mut n = 0;
+    let mut b = 0;
+    while b < PEERS {
+        n += active_of(e, &peer(b));
+        b += 1;
+    }
+    n
+}
+fn per_peer_reservations_ok(e: &AdmitEnv) -> bool {
+    let m = e.config.max_reservations_per_peer;
+    let mut ok = true;
+    let mut b = 0;
+    while b < PEERS {
+        ok = ok && active_of(e, &peer(b)) <= m;
+        b += 1;
+    }
+    ok
+}
+fn inv_reservations(e: &AdmitEnv) -> bool {
+    per_peer_reservations_ok(e) && total_active(e) <= e.config.max_reservations
+}
+
+fn circuits_of(e: &AdmitEnv, p: PeerId) -> usize {
+    let mut n = 0;
+    let mut i = 0;
+    while i < 4 {
+        if let Some((_, c)) = &e.circuits.circuits.slots[i] {
+            if c.src_peer_id == p || c.dst_peer_id == p {
+                n += 1;
+            }
+        }
+        i += 1;
+    }
+    n
+}
+fn total_circuits(e: &AdmitEnv) -> usize {
+    let mut n = 0;
+    let mut i = 0;
+    while i < 4 {
+        if e.circuits.circuits.slots[i].is_some() {
+            n += 1;
+        }
+        i += 1;
+    }
+    n
+}
+fn inv_circuits(e: &AdmitEnv) -> bool {
+    let m = e.config.max_circuits_per_peer;
+    let mut ok = total_circuits(e) <= e.config.max_circuits;
+    let mut b = 0;
+    while b < PEERS {
+        ok = ok && circuits_of(e, peer(b)) <= m;
+        b += 1;
+    }
+    ok
+}
+
+// ---- states ----
+
+/// reservation side (the reservation admission text does not read `circuits`):
+/// ANY map of <=3 peers x <=3 connections each with Active/None statuses
+fn any_reservation_env() -> AdmitEnv {
+    AdmitEnv { connections: any_peer_map(3, 3), circuits: CircuitsTracker::default(), config: any_config() }
+}
+
+fn any_circuit() -> Circuit {
+    Circuit {
+        status: if kani::any() { CircuitStatus::Accepting } else { CircuitStatus::Accepted },
+        src_peer_id: peer(any_peer_ix()),
+        src_connection_id: cid(any_conn_ix()),
+        dst_peer_id: peer(any_peer_ix()),
+        dst_connection_id: cid(any_conn_ix()),
+    }
+}
+
+/// circuit side: the real CircuitsTracker holding ANY <=3 circuits (arbitrary endpoints
+/// over 3 peers x 3 connection ids, ids distinct and below next_id as `insert` keeps
+/// them); `connections` (read only by the destination lookup) is any map of <=2 peers
+/// x <=2 connections
+fn any_circuit_env() -> AdmitEnv {
+    let mut t = CircuitsTracker::default();
+    let ids: [u64; 3] = kani::any();
+    let next: u64 = kani::any();
+    kani::assume(ids[0] != ids[1] && ids[0] != ids[2] && ids[1] != ids[2]);
+    // (`next_id + 1` must be representable: fewer than 2^64 - 2 circuits were ever created)
+    kani::assume(ids[0] < next && ids[1] < next && ids[2] < next && next < u64::MAX - 2);
+    t.next_id = CircuitId(next);
+    // any three of the four cells of the dependency shim may be occupied
+    let hole: u8 = kani::any();
+    kani::assume(hole < 4);
+    let mut j = 0;
+    let mut i = 0;
+    while i < 4 {
+        if i != hole as usize {
+            if kani::any() {
+                t.circuits.slots[i] = Some((CircuitId(ids[j]), any_circuit()));
+            }
+            j += 1;
+        }
+        i += 1;
+    }
+    AdmitEnv { connections: any_peer_map(2, 2), circuits: t, config: any_config() }
 }
 
 fn some_endpoint() -> ConnectedPoint {
     ConnectedPoint::Listener { local_addr: Multiaddr::empty(), send_back_addr: Multiaddr::empty() }
 }
 
+// ---- one admission step ----
+
 fn admit_reservation(e: &mut AdmitEnv) -> Option<(PeerId, ConnectionId)> {
-    let src = any_peer();
-    let conn = any_conn();
+    let src = peer(any_peer_ix());
+    let conn = cid(any_conn_ix());
     let renewed: bool = kani::any();
     // a renewal comes from a connection that already holds an active reservation
     // (the handler reports `renewed` only while its own reservation timer runs)
@@ -138,6 +234,7 @@ fn admit_reservation(e: &mut AdmitEnv) -> Option<(PeerId, ConnectionId)> {
     let ep = some_endpoint();
     let now: Instant = unsafe { std::mem::zeroed() };
     let deny = e.deny_reservation(renewed, src, &ep, now);
+    std::mem::forget(ep);
     kani::cover!(!deny);
     kani::cover!(deny);
     if deny {
@@ -155,12 +252,12 @@ fn reservation_admission_keeps_per_peer_limit() {
     kani::assume(inv_reservations(&e));
     if let Some((src, conn)) = admit_reservation(&mut e) {
         assert!(e.connections.get(&src).and_then(|cs| cs.get(&conn)).map_or(false, |s| s.is_active()));
-        let m = e.config.max_reservations_per_peer;
-        assert!(
-            active_of(&e, &peer(0)) <= m && active_of(&e, &peer(1)) <= m && active_of(&e, &peer(2)) <= m,
-            "C47: a peer holds more active reservations than max_reservations_per_peer"
+        kani::assert(
+            per_peer_reservations_ok(&e),
+            "C47: a peer holds more active reservations than max_reservations_per_peer",
         );
     }
+    std::mem::forget(e);
 }
 
 /// reservation request admitted => total active reservations <= max_reservations
@@ -170,19 +267,25 @@ fn reservation_admission_keeps_total_limit() {
     let mut e = any_reservation_env();
     kani::assume(inv_reservations(&e));
     if admit_reservation(&mut e).is_some() {
-        assert!(total_active(&e) <= e.config.max_reservations, "more active reservations than max_reservations");
+        kani::assert(
+            total_active(&e) <= e.config.max_reservations,
+            "C47: more active reservations than max_reservations",
+        );
     }
+    std::mem::forget(e);
 }
 
-fn admit_circuit(e: &mut AdmitEnv) -> Option<(PeerId, PeerId, usize)> {
-    let src = any_peer();
-    let dst = any_peer();
-    let conn = any_conn();
+fn admit_circuit(e: &mut AdmitEnv) -> Option<(PeerId, PeerId)> {
+    let src = peer(any_peer_ix());
+    let dst = peer(any_peer_ix());
+    let conn = cid(any_conn_ix());
     let ep = some_endpoint();
     let now: Instant = unsafe { std::mem::zeroed() };
-    let n0 = e.circuits.len();
+    let n0 = total_circuits(e);
     let req = Req(dst);
-    if e.deny_circuit(src, &ep, &req, now) {
+    let deny = e.deny_circuit(src, &ep, &req, now);
+    std::mem::forget(ep);
+    if deny {
         return None;
     }
     // accepted only if the destination holds an active reservation (same `else if let`)
@@ -194,10 +297,10 @@ fn admit_circuit(e: &mut AdmitEnv) -> Option<(PeerId, PeerId, usize)> {
         None => return None,
     };
     let id = e.accept_circuit(src, conn, &req, &dst_conn);
-    assert!(e.circuits.len() == n0 + 1);
+    assert!(total_circuits(e) == n0 + 1);
     assert!(e.circuits.circuits.contains_key(&id));
     kani::cover!(true);
-    Some((src, dst, n0))
+    Some((src, dst))
 }
 
 /// circuit admitted => circuits involving the SOURCE peer <= max_circuits_per_peer
@@ -206,12 +309,13 @@ fn admit_circuit(e: &mut AdmitEnv) -> Option<(PeerId, PeerId, usize)> {
 fn circuit_admission_keeps_source_per_peer_limit() {
     let mut e = any_circuit_env();
     kani::assume(inv_circuits(&e));
-    if let Some((src, _dst, _)) = admit_circuit(&mut e) {
-        assert!(
+    if let Some((src, _dst)) = admit_circuit(&mut e) {
+        kani::assert(
             circuits_of(&e, src) <= e.config.max_circuits_per_peer,
-            "C47: more circuits involve the source peer than max_circuits_per_peer"
+            "C47: more circuits involve the source peer than max_circuits_per_peer",
         );
     }
+    std::mem::forget(e);
 }
 
 /// circuit admitted => circuits involving the DESTINATION peer <= max_circuits_per_peer
@@ -220,12 +324,13 @@ fn circuit_admission_keeps_source_per_peer_limit() {
 fn circuit_admission_keeps_destination_per_peer_limit() {
     let mut e = any_circuit_env();
     kani::assume(inv_circuits(&e));
-    if let Some((_src, dst, _)) = admit_circuit(&mut e) {
-        assert!(
+    if let Some((_src, dst)) = admit_circuit(&mut e) {
+        kani::assert(
             circuits_of(&e, dst) <= e.config.max_circuits_per_peer,
-            "C47: more circuits involve the destination peer than max_circuits_per_peer"
+            "C47: more circuits involve the destination peer than max_circuits_per_peer",
         );
     }
+    std::mem::forget(e);
 }
 
 /// circuit admitted => total <= max_circuits, and peers that are neither source nor
@@ -236,51 +341,88 @@ fn circuit_admission_keeps_total_limit() {
     let mut e = any_circuit_env();
     kani::assume(inv_circuits(&e));
     let before = [circuits_of(&e, peer(0)), circuits_of(&e, peer(1)), circuits_of(&e, peer(2))];
-    if let Some((src, dst, _)) = admit_circuit(&mut e) {
-        assert!(e.circuits.len() <= e.config.max_circuits, "more circuits than max_circuits");
+    if let Some((src, dst)) = admit_circuit(&mut e) {
+        kani::assert(total_circuits(&e) <= e.config.max_circuits, "C47: more circuits than max_circuits");
         let mut b = 0u8;
-        while b < 3 {
+        while b < PEERS {
             if peer(b) != src && peer(b) != dst {
                 assert!(circuits_of(&e, peer(b)) == before[b as usize]);
             }
             b += 1;
         }
     }
+    std::mem::forget(e);
 }
 
-/// CircuitsTracker: map contracts
+/// CircuitsTracker: map contracts (what the admission text relies on)
 #[kani::proof]
 #[kani::unwind(8)]
 fn circuits_tracker_contracts() {
     let mut e = any_circuit_env();
-    let p = any_peer();
-    let c = any_conn();
-    let n0 = e.circuits.len();
-    let of_p = circuits_of(&e, p);
-    assert!(e.circuits.num_circuits_of_peer(p) == of_p);
-    let touching = e.circuits.circuits.values()
-        .filter(|x| (x.src_peer_id == p && x.src_connection_id == c) || (x.dst_peer_id == p && x.dst_connection_id == c))
-        .count();
+    let p = peer(any_peer_ix());
+    let c = cid(any_conn_ix());
+    let n0 = total_circuits(&e);
+    // num_circuits_of_peer counts source OR destination; len counts all
+    assert!(e.circuits.num_circuits_of_peer(p) == circuits_of(&e, p));
+    assert!(e.circuits.len() == n0);
+    let mut touching = 0;
+    let mut i = 0;
+    while i < 4 {
+        if let Some((_, x)) = &e.circuits.circuits.slots[i] {
+            if (x.src_peer_id == p && x.src_connection_id == c) || (x.dst_peer_id == p && x.dst_connection_id == c) {
+                touching += 1;
+            }
+        }
+        i += 1;
+    }
     let removed = e.circuits.remove_by_connection(p, c);
     // exactly the circuits using that connection (as source or destination) go away
     assert!(removed.len() == touching);
-    assert!(e.circuits.len() == n0 - touching);
-    assert!(e.circuits.circuits.values().all(|x| !((x.src_peer_id == p && x.src_connection_id == c) || (x.dst_peer_id == p && x.dst_connection_id == c))));
-    // ids are never reused
-    let id1 = e.circuits.insert(Circuit { status: CircuitStatus::Accepting, src_peer_id: p, src_connection_id: c, dst_peer_id: p, dst_connection_id: c });
-    let id2 = e.circuits.insert(Circuit { status: CircuitStatus::Accepting, src_peer_id: p, src_connection_id: c, dst_peer_id: p, dst_connection_id: c });
-    assert!(id1 != id2);
-    assert!(e.circuits.remove(id1).is_some());
-    assert!(e.circuits.remove(id1).is_none());
+    assert!(total_circuits(&e) == n0 - touching);
+    let mut i = 0;
+    while i < 4 {
+        if let Some((_, x)) = &e.circuits.circuits.slots[i] {
+            assert!(!((x.src_peer_id == p && x.src_connection_id == c) || (x.dst_peer_id == p && x.dst_connection_id == c)));
+        }
+        i += 1;
+    }
+    std::mem::forget(removed);
+    std::mem::forget(e);
 }
 
-/// Vacuity canary: must FAIL.
+/// CircuitsTracker: ids are never reused, remove releases exactly that circuit
+#[kani::proof]
+#[kani::unwind(8)]
+fn circuits_tracker_ids_fresh() {
+    let mut e = any_circuit_env();
+    kani::assume(total_circuits(&e) <= 2);
+    let n0 = total_circuits(&e);
+    let id1 = e.circuits.insert(any_circuit());
+    let id2 = e.circuits.insert(any_circuit());
+    assert!(id1 != id2);
+    assert!(total_circuits(&e) == n0 + 2);
+    assert!(e.circuits.remove(id1).is_some());
+    assert!(e.circuits.remove(id1).is_none());
+    assert!(total_circuits(&e) == n0 + 1);
+    std::mem::forget(e);
+}
+
+/// Vacuity canary: must FAIL (some reservation request is admitted).
 #[kani::proof]
 #[kani::unwind(8)]
 fn canary_reservations_always_denied() {
     let mut e = any_reservation_env();
     kani::assume(inv_reservations(&e));
-    let ep = some_endpoint();
-    let now: Instant = unsafe { std::mem::zeroed() };
-    assert!(e.deny_reservation(false, any_peer(), &ep, now));
+    assert!(admit_reservation(&mut e).is_none());
+    std::mem::forget(e);
+}
+
+/// Vacuity canary: must FAIL (some circuit request is admitted).
+#[kani::proof]
+#[kani::unwind(8)]
+fn canary_circuits_never_admitted() {
+    let mut e = any_circuit_env();
+    kani::assume(inv_circuits(&e));
+    assert!(admit_circuit(&mut e).is_none());
+    std::mem::forget(e);
 }
